@@ -196,8 +196,11 @@ def run(ctx, labels=None):
                             srcs.append(src_name(e[2][0], fa, E))
                         else:
                             bad.append("max(.., %s) without abs()" % show(e))
+                elif short(nm) == "fold" and "Iterator" in nm or nm.endswith("::fold"):
+                    fs_, fb_ = _fold_sources(E, crate, fa, t, 0)
+                    srcs += fs_
+                    bad += fb_
                 else:
-                    # fold/other: look for abs inside a closure passed
                     bad.append("%s(..)" % short(nm))
         srcs_by_fn[p] = sorted(set(srcs))
         ctx.ob("SCALE", "%s|max-over-absolute-values" % p.split("::")[-1], not bad and bool(srcs),
@@ -225,6 +228,78 @@ def run(ctx, labels=None):
                if same else
                "write_dictionary and write_bigram_details derive their scale from different "
                "sources (%s vs %s): the bigram files no longer agree with matrix.def" % (vals[0], vals[1]))
+
+
+def _fold_sources(E, crate, fa, t, depth):
+    """`it.fold(init, |acc, x| acc.max(x.abs()))`: the accumulator loop in combinator form. The seed
+    is the literal 0.0 or the result of another such fold; the closure is max(acc, abs(item[.field]))
+    and nothing else; the source is named from the receiver chain."""
+    srcs, bad = [], []
+    if depth > 4 or len(t["args"]) != 3:
+        return srcs, ["fold(..) in an unrecognised form"]
+    if op_const(t["args"][1]) is None:
+        o = fa.origin(t["args"][1])
+        if o[0] == "call" and strip_generics(callee_of(o[2])["path"]).endswith("fold"):
+            s2, b2 = _fold_sources(E, crate, fa, o[2], depth + 1)
+            srcs += s2
+            bad += b2
+        else:
+            bad.append("fold seeded with a computed value")
+    cl = E.closure_of_operand(fa, t["args"][2])
+    if cl is None or cl[1]:
+        return srcs, bad + ["fold with a capturing or unknown closure"]
+    ca = E.fa(cl[0])
+    CS = Sym(E, ca)
+    calls = list(ca.calls())
+    names = sorted(short(strip_generics((callee_of(c).get("resolved") or callee_of(c))["path"])) for _, c in calls)
+    binops = [1 for _, _, s_ in ca.stmts() if "rv" in s_ and s_["rv"]["k"] in ("binop", "unop")]
+    mx = [(b, c) for b, c in calls if short(strip_generics((callee_of(c).get("resolved") or callee_of(c))["path"])) == "max"]
+    if names != ["abs", "max"] or binops or len(mx) != 1 or mx[0][1]["dest"]["l"] != 0 or mx[0][1]["dest"]["p"]:
+        return srcs, bad + ["fold closure is not max(acc, item.abs()) (%s)" % names]
+    field = None
+    okargs = 0
+    for a in mx[0][1]["args"]:
+        if op_place(a) and through_copy(ca, a) == 2:
+            okargs += 1
+            continue
+        e = CS.operand(a)
+        if e[0] == "call" and short(e[1]) == "abs":
+            x = strip_casts(e[2][0])
+            if x[0] == "ap" and x[1].root == ("arg", 3):
+                okargs += 1
+                fs = [y for y in x[1].proj if isinstance(y, str) and not y.startswith(("[", "<", "#", "as ", "*"))]
+                field = fs[-1] if fs else None
+    if okargs != 2:
+        return srcs, bad + ["fold closure is not max(acc, item.abs())"]
+    # the receiver chain: iter()/into_iter()/flat_map(.., |m| m.values()) over a field of the model
+    vals = False
+    op = t["args"][0]
+    ap = None
+    for _ in range(8):
+        o = fa.origin(op)
+        if o[0] != "call":
+            ap = E.ap_operand(fa, op)
+            break
+        ct = o[2]
+        nm = short(strip_generics(callee_of(ct)["path"]))
+        if nm == "flat_map":
+            fc = E.closure_of_operand(fa, ct["args"][1])
+            if fc is None or sorted(short(strip_generics(callee_of(c)["path"])) for _, c in E.fa(fc[0]).calls()) != ["values"]:
+                return srcs, bad + ["fold over an unrecognised flat_map"]
+            vals = True
+        elif nm not in ("iter", "into_iter", "deref"):
+            ap = E.ap_operand(fa, op)
+            break
+        op = ct["args"][0]
+    else:
+        return srcs, bad + ["fold over an unrecognised receiver"]
+    if ap is None:
+        return srcs, bad + ["fold over an unrecognised receiver"]
+    fs = [y for y in ap.proj if isinstance(y, str) and not y.startswith(("[", "<", "#", "as ", "*"))]
+    if not fs or (field is None) != vals:
+        return srcs, bad + ["fold over an unrecognised receiver (%s)" % ap]
+    srcs.append(fs[-1] + (".values" if vals else "." + field))
+    return srcs, bad
 
 
 def through_copy(fa, op):
